@@ -116,6 +116,16 @@ class Vec2:
         return f"Vec2({self.x}, {self.y})"
 
 
+class Cols:
+    """(n, k) array given column by column (each column a per-row term)."""
+
+    def __init__(self, cols):
+        self.cols = list(cols)
+
+    def __repr__(self):
+        return f"Cols({self.cols})"
+
+
 class Pair:
     """sites[edges]: the two endpoint vectors of every edge, shape (m,2,2)."""
 
@@ -439,6 +449,14 @@ class Interp:
             return self.matmul(a, b)
         if isinstance(a, EmptyArr) or isinstance(b, EmptyArr):
             return EmptyArr()
+        if isinstance(a, Cols) or isinstance(b, Cols):
+            if isinstance(a, Cols) and isinstance(b, Cols):
+                if len(a.cols) != len(b.cols):
+                    raise Unsupported("column count mismatch")
+                return Cols([self.binop(op, x, y) for x, y in zip(a.cols, b.cols)])
+            if isinstance(a, Cols):
+                return Cols([self.binop(op, x, b) for x in a.cols])
+            return Cols([self.binop(op, a, y) for y in b.cols])
         if isinstance(a, Vec2) or isinstance(b, Vec2) or (
             isinstance(a, Field) and a.comps == 2) or (isinstance(b, Field) and b.comps == 2):
             return self._vec_binop(op, a, b)
@@ -740,9 +758,13 @@ class Interp:
                 return base.imag()
             if attr == "T":
                 return base
+            if attr == "ndim":
+                return 1
             if attr in ("conjugate", "conj", "squeeze", "copy", "astype", "max", "min", "sum", "mean"):
                 return BoundMethod(base, attr)
-        if isinstance(base, (Field, Vec2, Concat, Idx, SparseM, Scatter, Index2, EmptyArr, Opaque, Masked, Pair)):
+        if isinstance(base, Cols) and attr == "T":
+            return base
+        if isinstance(base, (Field, Vec2, Concat, Idx, SparseM, Scatter, Index2, EmptyArr, Opaque, Masked, Pair, Cols)):
             if attr == "shape" and isinstance(base, Field):
                 return (Sym({f"n_{base.space}": 1}),) + ((base.comps,) if base.comps > 1 else ())
             if attr == "T":
@@ -768,9 +790,13 @@ class Interp:
                     n = self.eval(s.upper, fr)
                     if isinstance(base, (Field, Vec2)) and n == 2:
                         return base
+                    if isinstance(base, Cols) and isinstance(n, int) and n <= len(base.cols):
+                        return Cols(base.cols[:n])
                 raise Unsupported(f"column slice {ast.unparse(node)}")
             if c is None:   # x[:, np.newaxis]
                 return base
+            if isinstance(base, Cols) and isinstance(c, int) and 0 <= c < len(base.cols):
+                return base.cols[c]
             if isinstance(base, Index2) and c in (0, 1):
                 return base.c0 if c == 0 else base.c1
             if isinstance(base, Field) and base.kind == "index" and base.comps == 2 and c in (0, 1):
@@ -986,7 +1012,7 @@ class Interp:
                 return recv
             if name == "mean" and kwargs.get("axis", args[0] if args else None) == 1:
                 raise Unsupported("mean over axis of a field")
-        if isinstance(recv, Vec2) and name in ("squeeze", "copy"):
+        if isinstance(recv, (Vec2, Cols)) and name in ("squeeze", "copy"):
             return recv
         if isinstance(recv, Pair) and name == "mean" and kwargs.get("axis") == 1:
             half = Rat.const(self.T, Fr(1, 2))
@@ -1049,7 +1075,13 @@ class Interp:
     def x_builtins_isinstance(self, a, k):
         v, c = a
         if isinstance(c, ModRef) and c.dotted in ("numpy.ndarray", "cupy.ndarray"):
-            return c.dotted == "numpy.ndarray" and isinstance(v, (Rat, Field, Vec2, Concat, Idx))
+            return c.dotted == "numpy.ndarray" and isinstance(v, (Rat, Field, Vec2, Concat, Idx, Cols))
+        if isinstance(c, tuple):
+            return any(self.x_builtins_isinstance([v, cc], {}) for cc in c)
+        if isinstance(c, ExtFunc) and c.dotted in ("builtins.str", "builtins.float", "builtins.int"):
+            if c.dotted == "builtins.str":
+                return isinstance(v, str)
+            return isinstance(v, (int, Fr)) and not isinstance(v, bool)
         if isinstance(c, ClassInfo) and isinstance(v, Obj) and v.cls is not None:
             return c in self.repo.mro(v.cls)
         if isinstance(v, Obj):
@@ -1134,7 +1166,21 @@ class Interp:
         v = a[0]
         if isinstance(v, list) and not v:
             return EmptyArr()
+        if isinstance(v, list) and v and all(isinstance(x, (Rat, int, Fr)) for x in v):
+            return Cols([self.as_term(x) for x in v])
         return v
+
+    def x_numpy_stack(self, a, k):
+        v = a[0]
+        if isinstance(v, list) and k.get("axis") == 1:
+            return Cols(list(v))
+        raise Unsupported("np.stack outside the column idiom")
+
+    def x_numpy_atleast_2d(self, a, k):
+        return a[0] if len(a) == 1 else tuple(a)
+
+    def x_numpy_atleast_1d(self, a, k):
+        return a[0] if len(a) == 1 else tuple(a)
 
     def x_numpy_asarray(self, a, k):
         return a[0]
